@@ -391,6 +391,18 @@ def check_order(rep):
     le = [[logics[i] <= logics[j] for j in range(n)] for i in range(n)]
     rep.count('logic_pairs', n * n)
     sig = lambda l: (repr(l.theory), l.quantifier_free)
+    # the quantified version of a logic allows quantifiers and covers it
+    from pysmt.exceptions import NoLogicAvailableError
+    for lg in logics:
+        rep.count('quantified_versions_checked')
+        try:
+            q = lg.get_quantified_version()
+        except NoLogicAvailableError:
+            continue
+        if q.quantifier_free or not (lg <= q):
+            rep.violation('C13/selection/quantified-version',
+                          '%s.get_quantified_version() is %s' % (lg, q),
+                          {'logic': lg.name})
     for i in range(n):
         if not le[i][i]:
             rep.violation('C13/order/reflexivity', '%s <= %s is False' % (
